@@ -51,8 +51,8 @@ var c12Type = map[string]string{
 }
 var c12TypeOrder = []string{"Unknown", "Float", "Integer", "String", "Boolean", "Time", "Duration", "Tag", "AnyField", "Unsigned", "FloatTuple", "Graph"}
 
-// readRepoFile reads a (non-Go) file of the repository, honouring VERIF_OVERLAY like Gen.Parse.
-func (g *Gen) readRepoFile(rel string) (string, error) {
+// c12ReadRepoFile reads a (non-Go) file of the repository, honouring VERIF_OVERLAY like Gen.Parse.
+func (g *Gen) c12ReadRepoFile(rel string) (string, error) {
 	path := filepath.Join(g.Repo, rel)
 	if ov := os.Getenv("VERIF_OVERLAY"); ov != "" {
 		if b, err := os.ReadFile(ov); err == nil {
@@ -71,21 +71,21 @@ func (g *Gen) readRepoFile(rel string) (string, error) {
 // ---------------------------------------------------------------------------------------------
 // sql.y reader
 
-type yAlt struct {
+type c12YAlt struct {
 	Syms   []string // symbols, "%prec X" kept as two symbols
 	Action string   // action text, whitespace-normalised ("" when none)
 }
-type yGrammar struct {
+type c12YGrammar struct {
 	Tokens []string            // every %token name in declaration order
 	Prec   [][]string          // each: [assoc, tok, tok, ...]
-	Rules  map[string][]yAlt   // nonterminal -> alternatives
+	Rules  map[string][]c12YAlt   // nonterminal -> alternatives
 	Order  []string
 }
 
-var reTypeTag = regexp.MustCompile(`<[^>]*>`)
+var c12ReTypeTag = regexp.MustCompile(`<[^>]*>`)
 
-func parseYacc(src string) (*yGrammar, error) {
-	y := &yGrammar{Rules: map[string][]yAlt{}}
+func c12ParseYacc(src string) (*c12YGrammar, error) {
+	y := &c12YGrammar{Rules: map[string][]c12YAlt{}}
 	parts := strings.SplitN(src, "\n%%", 3)
 	if len(parts) < 2 {
 		return nil, fmt.Errorf("sql.y: no %%%% separator")
@@ -98,7 +98,7 @@ func parseYacc(src string) (*yGrammar, error) {
 	lines := strings.Split(decl, "\n")
 	cur := ""
 	flush := func() {
-		f := strings.Fields(reTypeTag.ReplaceAllString(cur, " "))
+		f := strings.Fields(c12ReTypeTag.ReplaceAllString(cur, " "))
 		cur = ""
 		if len(f) == 0 {
 			return
@@ -215,7 +215,7 @@ func parseYacc(src string) (*yGrammar, error) {
 		return c == '_' || c == '%' || (c >= 'a' && c <= 'z') || (c >= 'A' && c <= 'Z') || (c >= '0' && c <= '9')
 	}
 	var lhs string
-	var alt *yAlt
+	var alt *c12YAlt
 	endAlt := func() {
 		if lhs != "" && alt != nil {
 			y.Rules[lhs] = append(y.Rules[lhs], *alt)
@@ -235,7 +235,7 @@ func parseYacc(src string) (*yGrammar, error) {
 				return nil, err
 			}
 			if alt == nil {
-				alt = &yAlt{}
+				alt = &c12YAlt{}
 			}
 			if alt.Action != "" {
 				alt.Action += " "
@@ -244,10 +244,10 @@ func parseYacc(src string) (*yGrammar, error) {
 		case c == '|':
 			i++
 			if alt == nil {
-				alt = &yAlt{}
+				alt = &c12YAlt{}
 			}
 			endAlt()
-			alt = &yAlt{}
+			alt = &c12YAlt{}
 		case c == ';':
 			i++
 		case c == '\'':
@@ -256,7 +256,7 @@ func parseYacc(src string) (*yGrammar, error) {
 				j++
 			}
 			if alt == nil {
-				alt = &yAlt{}
+				alt = &c12YAlt{}
 			}
 			alt.Syms = append(alt.Syms, body[i:j+1])
 			i = j + 1
@@ -273,18 +273,18 @@ func parseYacc(src string) (*yGrammar, error) {
 			if k < n && body[k] == ':' && !strings.HasPrefix(word, "%") {
 				// a new rule starts
 				if alt == nil && lhs != "" {
-					alt = &yAlt{}
+					alt = &c12YAlt{}
 				}
 				endAlt()
 				lhs = word
 				if _, ok := y.Rules[lhs]; !ok {
 					y.Order = append(y.Order, lhs)
 				}
-				alt = &yAlt{}
+				alt = &c12YAlt{}
 				i = k + 1
 			} else {
 				if alt == nil {
-					alt = &yAlt{}
+					alt = &c12YAlt{}
 				}
 				alt.Syms = append(alt.Syms, word)
 				i = j
@@ -294,7 +294,7 @@ func parseYacc(src string) (*yGrammar, error) {
 		}
 	}
 	if alt == nil && lhs != "" {
-		alt = &yAlt{}
+		alt = &c12YAlt{}
 	}
 	endAlt()
 	return y, nil
@@ -303,7 +303,7 @@ func parseYacc(src string) (*yGrammar, error) {
 // ---------------------------------------------------------------------------------------------
 // helpers
 
-func leanChars(s string) string {
+func c12LeanChars(s string) string {
 	if s == "" {
 		return "[]"
 	}
@@ -325,8 +325,8 @@ func leanChars(s string) string {
 	return "[" + strings.Join(parts, ", ") + "]"
 }
 
-// compositeEntries returns the key/value source text of a package-level composite literal.
-func (g *Gen) compositeEntries(rel, name string) ([][2]string, error) {
+// c12CompositeEntries returns the key/value source text of a package-level composite literal.
+func (g *Gen) c12CompositeEntries(rel, name string) ([][2]string, error) {
 	f, err := g.Parse(rel)
 	if err != nil {
 		return nil, err
@@ -364,9 +364,9 @@ func (g *Gen) compositeEntries(rel, name string) ([][2]string, error) {
 	return nil, fmt.Errorf("%s: %s not found", rel, name)
 }
 
-// switchOn finds, inside a function, the switch statement whose tag prints as tagSrc and
+// c12SwitchOn finds, inside a function, the switch statement whose tag prints as tagSrc and
 // returns (label, body) rows.
-func (g *Gen) switchOn(rel, fn, tagSrc string) ([][2]string, error) {
+func (g *Gen) c12SwitchOn(rel, fn, tagSrc string) ([][2]string, error) {
 	fd, err := g.Func(rel, fn)
 	if err != nil {
 		return nil, err
@@ -399,12 +399,12 @@ func (g *Gen) switchOn(rel, fn, tagSrc string) ([][2]string, error) {
 	return rows, nil
 }
 
-func unquoteGo(s string) (string, error) {
+func c12Unquote(s string) (string, error) {
 	return strconv.Unquote(s)
 }
 
-// opFn emits `def name : Op → T` with one arm per operator.
-func (g *Gen) opFn(name, typ string, val func(goTok string) string) {
+// c12OpFn emits `def name : Op → T` with one arm per operator.
+func (g *Gen) c12OpFn(name, typ string, val func(goTok string) string) {
 	g.P("def %s : OG.C12.Op → %s", name, typ)
 	for _, t := range c12OpOrder {
 		g.P("  | .%s => %s", c12Op[t], val(t))
@@ -421,23 +421,23 @@ func genC12(g *Gen) error {
 	g.GenNS()
 	g.P("open OG.C12 (Op Assoc DataType)\n")
 
-	ysrc, err := g.readRepoFile(c12dir + "sql.y")
+	ysrc, err := g.c12ReadRepoFile(c12dir + "sql.y")
 	if err != nil {
 		return err
 	}
-	y, err := parseYacc(ysrc)
+	y, err := c12ParseYacc(ysrc)
 	if err != nil {
 		return err
 	}
 
 	// ---- keywords: tokens FROM..ASC (sql.y order) with their spelling in token.go's tokens[...]
-	toks, err := g.compositeEntries(c12dir+"token.go", "tokens")
+	toks, err := g.c12CompositeEntries(c12dir+"token.go", "tokens")
 	if err != nil {
 		return err
 	}
 	spelling := map[string]string{}
 	for _, kv := range toks {
-		s, err := unquoteGo(kv[1])
+		s, err := c12Unquote(kv[1])
 		if err != nil {
 			return fmt.Errorf("tokens[%s]: %v", kv[0], err)
 		}
@@ -496,7 +496,7 @@ func genC12(g *Gen) error {
 		if i == len(order)-1 {
 			sep = ""
 		}
-		g.P("  (%s, .%s)%s", leanChars(s), last[s], sep)
+		g.P("  (%s, .%s)%s", c12LeanChars(s), last[s], sep)
 	}
 	g.P("]\n")
 	g.P("/-- tokens with `tok >= FROM && tok <= ON` (Scanner.Scan sets checkDOT after them). -/")
@@ -504,7 +504,7 @@ func genC12(g *Gen) error {
 	g.P("/-- upper-case spelling of a keyword token (`tokens[tok]`). -/")
 	g.P("def kwText : Kw → List Char")
 	for _, k := range all {
-		g.P("  | .%s => %s", k, leanChars(spelling[k]))
+		g.P("  | .%s => %s", k, c12LeanChars(spelling[k]))
 	}
 	g.P("")
 
@@ -528,7 +528,7 @@ func genC12(g *Gen) error {
 		prec[r[0]] = v
 	}
 	g.P("/-- `Token.Precedence()` (token.go). -/")
-	g.opFn("pePrec", "Nat", func(t string) string {
+	g.c12OpFn("pePrec", "Nat", func(t string) string {
 		if v, ok := prec[t]; ok {
 			return v
 		}
@@ -536,7 +536,7 @@ func genC12(g *Gen) error {
 	})
 
 	// ---- operatorMap
-	om, err := g.compositeEntries(c12dir+"token.go", "operatorMap")
+	om, err := g.c12CompositeEntries(c12dir+"token.go", "operatorMap")
 	if err != nil {
 		return err
 	}
@@ -548,11 +548,11 @@ func genC12(g *Gen) error {
 		isOp[kv[0]] = true
 	}
 	g.P("/-- `Token.isOperator()`: membership in operatorMap (token.go). -/")
-	g.opFn("isOperator", "Bool", func(t string) string { return strconv.FormatBool(isOp[t]) })
+	g.c12OpFn("isOperator", "Bool", func(t string) string { return strconv.FormatBool(isOp[t]) })
 
 	// ---- operator spelling
 	g.P("/-- `Token.String()` of an operator (tokens[...] of token.go). -/")
-	g.opFn("opText", "List Char", func(t string) string { return leanChars(spelling[t]) })
+	g.c12OpFn("opText", "List Char", func(t string) string { return c12LeanChars(spelling[t]) })
 
 	// ---- yacc precedence lines
 	g.P("/-- the %%left/%%right/%%nonassoc lines of sql.y, lowest precedence first. -/")
@@ -577,8 +577,8 @@ func genC12(g *Gen) error {
 	}
 	g.P("]\n")
 	g.P("/-- precedence level a token gets from those lines (0 = none). -/")
-	g.opFn("yaccLevel", "Nat", func(t string) string { return strconv.Itoa(level[t]) })
-	g.opFn("yaccAssoc", "Assoc", func(t string) string {
+	g.c12OpFn("yaccLevel", "Nat", func(t string) string { return strconv.Itoa(level[t]) })
+	g.c12OpFn("yaccAssoc", "Assoc", func(t string) string {
 		if a, ok := assoc[t]; ok {
 			return "." + a
 		}
@@ -652,7 +652,7 @@ func genC12(g *Gen) error {
 				if !ok {
 					return fmt.Errorf("sql.y: COLUMN_VAREF_TYPE yields unknown type %s", m[2])
 				}
-				ytypes = append(ytypes, fmt.Sprintf("(%s, .%s)", leanChars(m[1]), c))
+				ytypes = append(ytypes, fmt.Sprintf("(%s, .%s)", c12LeanChars(m[1]), c))
 			}
 		}
 	}
@@ -669,7 +669,7 @@ func genC12(g *Gen) error {
 		if r[0] == "default" {
 			continue
 		}
-		s, err := unquoteGo(strings.TrimPrefix(r[1], "return "))
+		s, err := c12Unquote(strings.TrimPrefix(r[1], "return "))
 		if err != nil {
 			return fmt.Errorf("DataType.String: case %s: %v", r[0], err)
 		}
@@ -682,10 +682,10 @@ func genC12(g *Gen) error {
 		if !ok {
 			s = "unknown"
 		}
-		g.P("  | .%s => %s", c12Type[t], leanChars(s))
+		g.P("  | .%s => %s", c12Type[t], c12LeanChars(s))
 	}
 	g.P("")
-	rows, err = g.switchOn(c12dir+"parser.go", "Parser.ParseVarRef", "strings.ToLower(lit)")
+	rows, err = g.c12SwitchOn(c12dir+"parser.go", "Parser.ParseVarRef", "strings.ToLower(lit)")
 	if err != nil {
 		return err
 	}
@@ -694,7 +694,7 @@ func genC12(g *Gen) error {
 		if r[0] == "default" {
 			continue
 		}
-		name, err := unquoteGo(r[0])
+		name, err := c12Unquote(r[0])
 		if err != nil {
 			return err
 		}
@@ -702,11 +702,11 @@ func genC12(g *Gen) error {
 		if !ok {
 			return fmt.Errorf("ParseVarRef: case %s has body %q", r[0], r[1])
 		}
-		ptypes = append(ptypes, fmt.Sprintf("(%s, .%s)", leanChars(name), c))
+		ptypes = append(ptypes, fmt.Sprintf("(%s, .%s)", c12LeanChars(name), c))
 	}
 	g.P("/-- `switch strings.ToLower(lit)` of ParseVarRef: type name ↦ DataType. -/")
 	g.P("def peTypeNames : List (List Char × DataType) := [%s]\n", strings.Join(ptypes, ", "))
-	rows, err = g.switchOn(c12dir+"parser.go", "Parser.ParseVarRef", "tok")
+	rows, err = g.c12SwitchOn(c12dir+"parser.go", "Parser.ParseVarRef", "tok")
 	if err != nil {
 		return err
 	}
